@@ -141,13 +141,33 @@ def build_driver():
     """Extraction (ExtrOcamlBasic only) + ocamlopt of the hand-written driver."""
     od = BUILD / 'ocaml'
     od.mkdir(parents=True, exist_ok=True)
-    srcs = sorted((ROOT / 'ocaml').glob('*.ml')) + [COQ / 'Extract' / 'Extract.v'] + sorted(COQ.rglob('Model/**/*.v')) + sorted(COQ.glob('Model/*.v')) + sorted(COQ.glob('Spec/*.v'))
+    parts = sorted((COQ / 'Extract' / 'parts').glob('*.ext'))
+    srcs = sorted((ROOT / 'ocaml').glob('*.ml')) + parts + sorted(COQ.rglob('Model/**/*.v')) + sorted(COQ.glob('Model/*.v')) + sorted(COQ.glob('Spec/*.v'))
     stamp = od / 'stamp'
     h = file_hash(srcs)
     if DRIVER.exists() and stamp.exists() and stamp.read_text() == h:
         return True, ''
     t0 = time.time()
-    rc, out, err = run(['timeout', '900', 'coqc', '-Q', str(COQ), 'TS', '-w', '-all', str(COQ / 'Extract' / 'Extract.v')], cwd=od, timeout=1000)
+    imports, idents = [], []
+    for f in parts:
+        for line in f.read_text().splitlines():
+            line = line.strip()
+            if not line or line.startswith('#'):
+                continue
+            if line.startswith('import '):
+                imports += [m for m in line.split()[1:] if m not in imports]
+            else:
+                idents += [i for i in line.split() if i not in idents]
+    bad = [x for x in imports + idents if not re.fullmatch(r"[A-Za-z_][\w.']*", x)]
+    if bad:
+        return False, 'Extract parts: not an identifier: ' + ' '.join(bad)
+    (od / 'Extract.v').write_text(
+        '(* generated by lib/vf.py from coq/Extract/parts/*.ext - ExtrOcamlBasic only, no Extract Constant *)\n'
+        'From Coq Require Import Extraction ExtrOcamlBasic.\n'
+        'From TS Require Import ' + ' '.join(imports) + '.\n'
+        'Extraction Language OCaml.\nSet Extraction AccessOpaque.\n'
+        'Extraction "model.ml"\n  ' + '\n  '.join(idents) + '.\n')
+    rc, out, err = run(['timeout', '900', 'coqc', '-Q', str(COQ), 'TS', '-w', '-all', 'Extract.v'], cwd=od, timeout=1000)
     if rc != 0:
         return False, (out + err)[-4000:]
     for f in (ROOT / 'ocaml').glob('*.ml'):
